@@ -1356,7 +1356,10 @@ func (fr *Frame) typeAssert(in *ssa.TypeAssert, st *State, pc T) T {
 	var val Val
 	if _, isIface := in.AssertedType.Underlying().(*types.Interface); isIface {
 		// interface-to-interface: succeeds for some dynamic types only; non-nil required
-		okc := vc.fresh("implements", SortBool)
+		// whether a dynamic type implements the asserted interface is a fixed (uninterpreted) function of the
+		// type tag and the interface, so that contracts can state it: implements(x, T)
+		vc.declareFun("gv_implements", []string{SortBV(64), SortBV(64)}, SortBool)
+		okc := app("gv_implements", x.Ts[0], vc.E.TypeID(in.AssertedType))
 		ok = And(Not(Eq(x.Ts[0], BV(0, 64))), okc)
 		if ii, _ := in.X.Type().Underlying().(*types.Interface); ii != nil {
 			if at, _ := in.AssertedType.Underlying().(*types.Interface); at != nil && types.Implements(in.X.Type(), at) {
